@@ -3,6 +3,7 @@ mod rng;
 mod reprs;
 mod e_fmt;
 mod e_buf;
+mod e_cmp;
 
 use std::io::{BufWriter, Write};
 
@@ -24,6 +25,8 @@ fn main() {
         "buf-random" => e_buf::buf_random(&mut out, seed, n, arg(&args, "--depth", 3)),
         "buf-codec" => e_buf::buf_codec(&mut out, seed, n),
         "buf-replay" => e_buf::buf_replay(&mut out),
+        "cmp-table" => e_cmp::table(&mut out),
+        "cmp" => e_cmp::cmp_cases(&mut out, seed, n, arg(&args, "--shard", 0), arg(&args, "--nshards", 1)),
         "escapes" => e_fmt::escapes(&mut out),
         "fmt" => e_fmt::fmt_cases(&mut out, seed, n, !flag(&args, "--no-pairs")),
         #[cfg(feature = "serde")]
